@@ -170,7 +170,7 @@ impl Space_ {
         let mut cum = vec![0usize];
         for (_, s) in &seeds {
             let l = s.len();
-            let n = 1 + l + l * nsub + l + (l + 1) * nins;
+            let n = 1 + l + l * nsub + l + (l + 1) * nins + l;
             cum.push(cum.last().unwrap() + n);
         }
         let short_len = if args.tier == Tier::Thorough { 3 } else { 2 };
@@ -242,12 +242,24 @@ impl Space_ {
                 return Some((format!("{} delete byte {}", name, k), m));
             }
             k -= l;
-            let (p, slot) = (k / self.nins, k % self.nins);
-            const VI: [u8; 8] = [0x00, 0x01, 0x0b, 0x41, 0x7f, 0x80, 0xfc, 0xff];
-            let v = if self.nins == 256 { slot as u8 } else { VI[slot] };
+            if k < (l + 1) * self.nins {
+                let (p, slot) = (k / self.nins, k % self.nins);
+                const VI: [u8; 8] = [0x00, 0x01, 0x0b, 0x41, 0x7f, 0x80, 0xfc, 0xff];
+                let v = if self.nins == 256 { slot as u8 } else { VI[slot] };
+                let mut m = s.clone();
+                m.insert(p, v);
+                return Some((format!("{} insert {:#04x} at {}", name, v, p), m));
+            }
+            // structure-aware: byte p rewritten as a padded two-byte LEB of the same value
+            // (valid wherever p is the last byte of a LEB128 that may be padded, invalid elsewhere)
+            let p = k - (l + 1) * self.nins;
+            if s[p] >= 0x80 {
+                return None;
+            }
             let mut m = s.clone();
-            m.insert(p, v);
-            return Some((format!("{} insert {:#04x} at {}", name, v, p), m));
+            m[p] |= 0x80;
+            m.insert(p + 1, 0x00);
+            return Some((format!("{} byte {} re-encoded as a padded LEB", name, p), m));
         }
         let mut k = idx - seeds_total;
         let nshort: usize = (0..=self.short_len).map(|k| 256usize.pow(k as u32)).sum();
@@ -775,7 +787,7 @@ pub fn run(args: &Args) -> i32 {
     ev.rule = format!(
         "deviation-bounded enumeration: {} valid seeds (fixtures, every struct dimension variant, custom-section placements, a full name section, operator representatives); 0 deviations = the seed and, as is, every member \
          of every generated family incl. the whole operator census; 1 deviation = \
-         every prefix, every position x every value of the byte set ({} values per position), every single deletion, every single insertion (8 values quick / 256 thorough); all byte strings header+w with |w| <= {}; {}plus a depth/size family \
+         every prefix, every position x every value of the byte set ({} values per position), every single deletion, every single insertion (8 values quick / 256 thorough), every byte < 0x80 re-encoded as a padded two-byte LEB; all byte strings header+w with |w| <= {}; {}plus a depth/size family \
          (nesting up to 10^{}, br_table arity, locals, function count, body size at LEB boundaries and validator limits) with each member parsed in a process of its own. Each input is parsed under the default \
          and the only-stable configuration in worker subprocesses. Oracle: no panic / crash / hang; accept <=> stand-alone wasmparser 0.214 with the feature set written down from the documentation. \
          non-trivial = inputs walrus accepts (distinct valid modules in the neighbourhood)",
